@@ -16,7 +16,9 @@
 //	C09.local in every explored state a local application (L1) can still fetch
 //	          /localhost/nfd/y from the local producer face (L5): the Interest reaches L5 (or is
 //	          already pending there, or is answered from the cache), the Data comes back to L1,
-//	          and a second Interest is answered again (cache or producer).
+//	          and a second Interest is answered again (cache or producer). Claimed whenever L5 is
+//	          listed by the FIB entry covering the name NOW - also after earlier attempts of L1
+//	          made while the entry listed other next hops (fibmix.go, refetch.go).
 package main
 
 import (
@@ -76,7 +78,7 @@ type opDef struct {
 // fOp changes the FIB entry of the producer prefix between packets (fibmix configurations).
 type fOp struct {
 	add  bool
-	face uint64 // a non-local face (the producer's own route is never removed)
+	face uint64 // a non-local face, or the local producer L5 (its route comes and goes too)
 	cost uint64
 }
 
@@ -100,9 +102,10 @@ type inst struct {
 	nonceCtr uint32
 	dump     table.VerifPitCsDump
 	started  bool
-	fib      string   // fibmix: the chosen universe and the route changes since (for reports)
-	uprefix  string   // fibmix: the prefix of the FIB entry that covers the probe name and lists the producer L5
-	queue    []queued // defer configurations: what the backlogged non-local faces still hold
+	fib      string            // fibmix: the chosen universe and the route changes since (for reports)
+	uprefix  string            // fibmix: the prefix of the FIB entry that covers the probe name and lists the producer L5
+	hops     map[uint64]uint64 // fibmix: the harness's own record of that entry's next hops (face -> cost)
+	queue    []queued          // defer configurations: what the backlogged non-local faces still hold
 }
 
 func (s *sys) add(n string, d opDef) {
@@ -234,6 +237,10 @@ func build(cfgName string) explore.System {
 	}
 	s.add("T(100ms)", opDef{t: &tOp{100 * time.Millisecond}})
 	s.add("T(5s)", opDef{t: &tOp{5 * time.Second}})
+	if s.fibmix {
+		s.add("T(400ms)", opDef{t: &tOp{400 * time.Millisecond}}) // with T(100ms): the edge of the 500 ms retransmission suppression
+		s.addI(iOp{face: fwsim.L1, name: probeName, nh: fwsim.N2})
+	}
 	// the non-local peer's face is destroyed; packets it delivered before may still be queued,
 	// so arrivals attributed to N2 keep being part of the alphabet afterwards
 	s.add("Down(N2)", opDef{down: fwsim.N2})
@@ -324,7 +331,9 @@ func build(cfgName string) explore.System {
 					keep = append(keep, n)
 				}
 			}
-			keep = append(keep, "I(L1,"+probeName+",plain)", "I(N2,"+probeName+",plain)")
+			// attempts of the local application itself (plain, and with a consumer-chosen NON-LOCAL next
+			// hop, which the scope rule rejects) between the FIB changes, at 0 / 100 / 400 / 500 ms / 5 s
+			keep = append(keep, "I(L1,"+probeName+",plain)", "I(N2,"+probeName+",plain)", "I(L1,"+probeName+",plain+nh=N2)", "T(400ms)", "T(5s)")
 		}
 		s.names, s.allOps = nil, nil
 		for _, n := range keep {
@@ -429,15 +438,21 @@ func (s *sys) step(in *inst, op explore.Op) (v []report.Violation) {
 	how := ""
 	switch {
 	case d.u != nil:
+		in.hops = map[uint64]uint64{}
 		for _, rt := range d.u.routes {
 			in.sim.AddRoute(rt.Prefix, rt.Face, rt.Cost)
+			if rt.Prefix == d.u.prefix {
+				in.hops[rt.Face] = rt.Cost
+			}
 		}
 		in.fib, in.uprefix = op.Name, d.u.prefix
 	case d.f != nil:
 		if d.f.add {
 			in.sim.AddRoute(in.uprefix, d.f.face, d.f.cost)
+			in.hops[d.f.face] = d.f.cost
 		} else {
 			in.sim.RemoveRoute(in.uprefix, d.f.face)
+			delete(in.hops, d.f.face)
 		}
 		in.fib += " ; " + op.Name
 	case d.i != nil:
@@ -553,13 +568,33 @@ func (s *sys) CheckState(i any) (v []report.Violation) {
 		return nil // Interests under /localhost are dispatched to thread 0, which is not the driven one
 	}
 	in := i.(*inst)
-	if s.fibmix && in.uprefix == "" {
-		return nil // no universe chosen yet: the FIB has no route towards the producer
-	}
 	fibNote := "FIB has /localhost/nfd -> L5 (cost 0)"
 	if s.fibmix {
+		if in.uprefix == "" || !in.producerListed() {
+			// no universe chosen yet, or the local producer is (currently) not a next hop of the FIB entry
+			// that covers the probe name: the property does not say where the Interest has to go
+			return nil
+		}
 		fibNote = "FIB (next hops in insertion order): " + in.fib
 	}
+	return s.probeLocal(in, fibNote)
+}
+
+// producerListed: is the local producer L5 a next hop of the longest-prefix FIB entry of the probe
+// name right now (the premise of C09.local)?
+// Decided on the harness's own record of the routes it installed (the entry is the deepest one
+// configured, so whenever it lists L5 it is the longest-prefix match), not by asking the FIB under test.
+func (in *inst) producerListed() bool {
+	_, ok := in.hops[fwsim.L5]
+	return ok
+}
+
+// probeLocal is the fetch-twice probe of C09.local (destroys the instance): the local application
+// L1 sends the probe Interest with a nonce never used before; it must reach the local producer L5
+// (or be pending there already: an out-record towards L5 exists, i.e. an earlier Interest WAS sent
+// to L5, or be answered from the cache), be recorded as pending for L1, and the Data of L5 must
+// come back to L1; then once more.
+func (s *sys) probeLocal(in *inst, fibNote string) (v []report.Violation) {
 	bad := func(key, detail string) {
 		v = append(v, report.Violation{Clause: "C09.local", Key: key, Detail: detail})
 	}
@@ -656,7 +691,8 @@ func (s *sys) Canon(i any) string {
 			down += "ROOT|"
 		}
 		nodes, aux := table.VerifDumpFib(table.FibStrategyTable)
-		down += fmt.Sprintf("FIB%v%v|", nodes, aux)
+		// the prefix the Add/Rem steps act on is part of the state (two universes can build the same FIB)
+		down += fmt.Sprintf("P=%s|FIB%v%v|", in.uprefix, nodes, aux)
 	}
 	return down + fwsim.CanonPitCs(in.dump, in.sim.Queue(), fwsim.CanonOpts{
 		Token: func(t uint32) string {
@@ -732,6 +768,7 @@ func main() {
 			lpHeaderPass(rep, cov)
 			l3SweepPass(rep, cov)
 			scopePass(rep, cov)
+			refetchPass(rep, cov)
 		},
 		ID: "C09", PanicClause: "C09.panic", Build: build,
 		Configs: configs,
@@ -741,11 +778,11 @@ func main() {
 			}
 			return 78 * time.Second
 		},
-		Rule: "BFS over histories of Interest arrivals (names /localhost/x, /localhost/nfd/y, /localhop/z, /a, / and /localhost with CanBePrefix; with and without a HopLimit element (1, 2, 255); from local L1 and non-local N2/N3/N4; NextHopFaceId -> N2 / L5 / L1 on the local-fields face L1, on N2 (local fields disabled) and on the NON-LOCAL face N4 with local fields enabled), Data arrivals (same names, from L5/N2/L1, no token or echo of a live upstream token) clock steps and the destruction of the non-local face N2 (after which packets it delivered earlier still arrive), on one real fw.Thread with leaky FIBs (default route and /localhost route to non-local N2, /localhost/nfd -> {L5,N2}), best-route or multicast on /, cache on/off, FIB tree/hash table; in the configurations that go through the real NDNLPLinkService also frames on which the PEER put an IncomingFaceId header (naming L5 / L1 / N2) on the non-local face N4 with all three local-fields options (consumer-controlled forwarding, incoming face indication, local cache policy) and on N2 without, Interests and Data; FIB universes (fibmix configurations): the first step installs the FIB entry that covers the probe name (/localhost/nfd below a /localhost -> N2 entry, or /localhost) with the local producer L5 at cost 1 and every subset of the non-local faces {N2,N3} at cost 0|1|2 in every insertion order (134 universes), non-local next hops are added/removed between packets; separately an exhaustive sweep of 24192 received frames (lpsweep.go: 8 option combinations of the receiving non-local face x 2 base states x 3 packets under /localhost x IncomingFaceId absent|L1|L5|N2|self|missing|0 x NextHopFaceId absent|L5|N2 x PitToken absent|live or well-formed|4 bytes x CachePolicy x CongestionMark x NonDiscovery) through the real link service, each on a fresh forwarder; separately an exhaustive sweep of the optional fields of the Interest itself (l3sweep.go, quick 20736 / thorough 414720 Interests under /localhost received on a non-local face: arrival face N2|N4 x copied|real link service x base state empty|same Interest pending from L1|matching Data cached x name/CanBePrefix/MustBeFresh x forwarding hint none|routed to a non-local face|routed to a local application|under /localhost|inside the producer region|unrouted|two delegations in both orders x NextHopFaceId x HopLimit x InterestLifetime x PitToken x Nonce), each on a fresh forwarder; forwarding hints (routed, inside the producer region /r) on /localhost Interests from non-local faces are also part of the BFS alphabet; C09.out checked on every SendPacket of every step and of the probes - on the decoded packet, on the bytes handed over, again through the OutPkt the face keeps once the pipeline call has returned, and in the 'defer' configurations (backlogged non-local faces that drain only at clock steps; full alphabet with de-duplication on tables + queued packets, and a content-store alphabet of 9 ops without de-duplication) after every later step and probe for as long as the packet is queued (wire.go), C09.in by comparing the complete white-box dump before/after each rejected packet, C09.local by a fetch-twice probe in every explored state",
+		Rule: "BFS over histories of Interest arrivals (names /localhost/x, /localhost/nfd/y, /localhop/z, /a, / and /localhost with CanBePrefix; with and without a HopLimit element (1, 2, 255); from local L1 and non-local N2/N3/N4; NextHopFaceId -> N2 / L5 / L1 on the local-fields face L1, on N2 (local fields disabled) and on the NON-LOCAL face N4 with local fields enabled), Data arrivals (same names, from L5/N2/L1, no token or echo of a live upstream token) clock steps and the destruction of the non-local face N2 (after which packets it delivered earlier still arrive), on one real fw.Thread with leaky FIBs (default route and /localhost route to non-local N2, /localhost/nfd -> {L5,N2}), best-route or multicast on /, cache on/off, FIB tree/hash table; in the configurations that go through the real NDNLPLinkService also frames on which the PEER put an IncomingFaceId header (naming L5 / L1 / N2) on the non-local face N4 with all three local-fields options (consumer-controlled forwarding, incoming face indication, local cache policy) and on N2 without, Interests and Data; FIB universes (fibmix configurations): the first step installs the FIB entry that covers the probe name (/localhost/nfd below a /localhost -> N2 entry, or /localhost) with the local producer L5 at cost 1 and every subset of the non-local faces {N2,N3} at cost 0|1|2 in every insertion order (134 universes), and the same entries WITHOUT the producer (50 universes: it has not registered yet); non-local next hops and the producer's own route are added/removed between packets, the local application's own attempts (plain, NextHopFaceId naming a non-local face) and clock steps of 100 ms / 400 ms / 5 s in between; separately an exhaustive sweep of 48640 'fetch after an earlier attempt under a different FIB' cases (refetch.go: strategy x FIB implementation x entry prefix x next hops before (L5 absent|present, N2 absent|c0|c2, N3 absent|c0, both insertion orders) x earlier attempt plain|NextHopFaceId=N2|HopLimit|two attempts x 0|100|499|500|501 ms|3.9|4.1|7 s until the FIB change x 10 FIB changes (producer registers / re-registers, non-local hops removed / added / replaced, non-local face destroyed)), each on a fresh forwarder, C09.local probed whenever the entry then lists L5; separately an exhaustive sweep of 24192 received frames (lpsweep.go: 8 option combinations of the receiving non-local face x 2 base states x 3 packets under /localhost x IncomingFaceId absent|L1|L5|N2|self|missing|0 x NextHopFaceId absent|L5|N2 x PitToken absent|live or well-formed|4 bytes x CachePolicy x CongestionMark x NonDiscovery) through the real link service, each on a fresh forwarder; separately an exhaustive sweep of the optional fields of the Interest itself (l3sweep.go, quick 20736 / thorough 414720 Interests under /localhost received on a non-local face: arrival face N2|N4 x copied|real link service x base state empty|same Interest pending from L1|matching Data cached x name/CanBePrefix/MustBeFresh x forwarding hint none|routed to a non-local face|routed to a local application|under /localhost|inside the producer region|unrouted|two delegations in both orders x NextHopFaceId x HopLimit x InterestLifetime x PitToken x Nonce), each on a fresh forwarder; forwarding hints (routed, inside the producer region /r) on /localhost Interests from non-local faces are also part of the BFS alphabet; C09.out checked on every SendPacket of every step and of the probes - on the decoded packet, on the bytes handed over, again through the OutPkt the face keeps once the pipeline call has returned, and in the 'defer' configurations (backlogged non-local faces that drain only at clock steps; full alphabet with de-duplication on tables + queued packets, and a content-store alphabet of 9 ops without de-duplication) after every later step and probe for as long as the packet is queued (wire.go), C09.in by comparing the complete white-box dump before/after each rejected packet, C09.local by a fetch-twice probe in every explored state",
 		Assumptions: []string{
 			"faces are simulated at the dispatch.Face seam (verif/harness/fwsim): Scope() of the fake face is what the thread consults; NextHopFaceId is copied into the packet only on faces with local fields enabled, as NDNLPLinkService.handleIncomingFrame does",
 			"L5 is a pure producer (never sends Interests), so it is never excluded as a next hop for holding an in-record",
-			"C09.local is claimed whenever L5 is a next hop of the longest-prefix FIB entry of the probe name, whatever else that entry lists and in whatever order and cost (fibmix universes); a packet's arrival face is the face whose link service received the frame, whatever header fields the frame carries (C09.in is evaluated against that face)",
+			"C09.local is claimed whenever L5 is a next hop of the longest-prefix FIB entry of the probe name (decided on the harness's own record of the routes it installed), whatever else that entry lists and in whatever order and cost, and whatever the same application attempted earlier under a different FIB (fibmix universes, refetch sweep); an Interest that is not forwarded because an out-record towards L5 exists counts as pending at the producer (an Interest WAS sent to L5), and the Data of L5 must then still reach L1; a packet's arrival face is the face whose link service received the frame, whatever header fields the frame carries (C09.in is evaluated against that face)",
 			"what a face transmits is what it reads through the dispatch.OutPkt it was handed (Pkt.Raw, decoded L3) at the moment it serialises; a backlogged face is modelled as draining at clock steps only, which within a history observes a superset of what any earlier drain would read (every queued packet is re-read after every step); the canonical state of the defer configurations adds the set of queued (face, kind, name, producing path)",
 			"every Interest carries a fresh nonce (loop/dead-nonce drops are C02's subject); equal canonical white-box dump (tokens renamed by entry, clock-relative) implies equal futures",
 			"states reached by a violating transition are not expanded (their futures would repeat the same leak)",
